@@ -54,29 +54,37 @@ def _H3():
 def grids():
     """name -> list of (args, kwargs) parameter tuples (seed is added by the harness)."""
     G = {}
-    G["fast_random_hypergraph"] = [((8, [0.4, 0.2]), {}), ((6, 0.5), {"order": 2}), ((6, [1.0, 0.3, 0.0]), {})]
-    G["random_hypergraph"] = [((6, [0.4, 0.3]), {})]
+    G["fast_random_hypergraph"] = [((8, [0.4, 0.2]), {}), ((6, 0.5), {"order": 2}), ((6, [1.0, 0.3, 0.0]), {}),
+                                   ((5, [0.0, 1.0]), {}), ((1, [0.5]), {}), ((3, [0.5, 0.5, 0.5]), {})]
+    G["random_hypergraph"] = [((6, [0.4, 0.3]), {}), ((5, [1.0, 0.0]), {}), ((5, [0.0, 0.5]), {}), ((4, [0.5]), {"order": 2})]
     G["chung_lu_hypergraph"] = [(({i: 2 for i in range(6)}, {i: 3 for i in range(4)}), {}),
                                 (({i: 1 + i % 3 for i in range(6)}, {i: 2 for i in range(4)}), {})]  # sums differ (warns)
     G["dcsbm_hypergraph"] = [(({i: 2 for i in range(6)}, {i: 3 for i in range(4)}, {i: i % 2 for i in range(6)},
                                {i: i % 2 for i in range(4)}, np.array([[4, 2], [2, 4]])), {})]
-    G["watts_strogatz_hypergraph"] = [((10, 3, 4, 1, 0.5), {}), ((8, 2, 2, 0, 1.0), {})]
+    G["watts_strogatz_hypergraph"] = [((10, 3, 4, 1, 0.5), {}), ((8, 2, 2, 0, 1.0), {}), ((8, 3, 2, 1, 0.0), {}), ((9, 3, 4, 2, 1.0), {})]
     G["uniform_hypergraph_configuration_model"] = [(({i: 2 for i in range(9)}, 3), {}),
                                                    # sum of degrees not a multiple of m: the repair branch draws too
                                                    (({i: 2 for i in range(8)}, 3), {}), (({i: 1 + i % 2 for i in range(7)}, 4), {})]
     G["uniform_HSBM"] = [((8, 2, np.array([[0.6, 0.2], [0.2, 0.6]]), [4, 4]), {}),
                          ((7, 2, np.array([[1.0, 0.3], [0.3, 0.0]]), [3, 4]), {}),
                          ((6, 3, np.full((2, 2, 2), 0.3), [2, 4]), {})]
-    G["uniform_HPPM"] = [((8, 2, 3, 0.8), {}), ((9, 3, 4, 0.5), {"rho": 0.4})]
+    G["uniform_HPPM"] = [((8, 2, 3, 0.8), {}), ((9, 3, 4, 0.5), {"rho": 0.4}),
+                         # degenerate partitions and extreme imbalance: one community empty, epsilon at both ends
+                         ((8, 2, 3, 0.5), {"rho": 1.0}), ((8, 2, 3, 0.5), {"rho": 0.0}), ((12, 2, 3, 0.5), {"rho": 0.01}),
+                         ((8, 2, 3, 0.0), {}), ((8, 2, 3, 1.0), {}), ((8, 3, 2, 1.0), {"rho": 0.25})]
     G["uniform_erdos_renyi_hypergraph"] = [((8, 3, 0.3), {}), ((6, 2, 0.4), {"multiedges": True}),
-                                           ((8, 2, 2.0), {"p_type": "degree"}), ((6, 2, 1.5), {"p_type": "degree", "multiedges": True})]
-    G["random_simplicial_complex"] = [((7, [0.4, 0.3]), {}), ((6, [0.5, 0.5, 0.5]), {})]
-    G["random_flag_complex"] = [((7, 0.5), {"max_order": 3})]
-    G["random_flag_complex_d2"] = [((7, 0.5), {})]
+                                           ((8, 2, 2.0), {"p_type": "degree"}), ((6, 2, 1.5), {"p_type": "degree", "multiedges": True}),
+                                           ((5, 2, 1.0), {}), ((5, 2, 0.0), {}), ((5, 3, 1.0), {"multiedges": True}),
+                                           ((5, 5, 0.5), {}), ((6, 2, 0.0), {"p_type": "degree"})]
+    G["random_simplicial_complex"] = [((7, [0.4, 0.3]), {}), ((6, [0.5, 0.5, 0.5]), {}), ((5, [1.0, 0.5]), {}), ((5, [0.0, 0.5]), {})]
+    G["random_flag_complex"] = [((7, 0.5), {"max_order": 3}), ((6, 1.0), {"max_order": 2}), ((6, 0.0), {"max_order": 2}),
+                                ((6, 0.6), {"max_order": None})]
+    G["random_flag_complex_d2"] = [((7, 0.5), {}), ((5, 1.0), {}), ((5, 0.0), {})]
     G["flag_complex"] = [((nx.complete_graph(5),), {"max_order": 3, "ps": [0.5, 0.5]}), ((nx.complete_graph(5),), {"max_order": 2}),
                          ((nx.wheel_graph(6),), {"max_order": 2, "ps": [0.7]})]
-    G["flag_complex_d2"] = [((nx.complete_graph(5),), {"p2": 0.5})]
-    G["shuffle_hyperedges"] = [((_H(), 1, 0.7), {}), ((_H(), 2, 1.0), {})]
+    G["flag_complex_d2"] = [((nx.complete_graph(5),), {"p2": 0.5}), ((nx.complete_graph(4),), {"p2": 1.0}), ((nx.complete_graph(4),), {"p2": 0.0}),
+                            ((nx.complete_graph(4),), {})]
+    G["shuffle_hyperedges"] = [((_H(), 1, 0.7), {}), ((_H(), 2, 1.0), {}), ((_H(), 1, 0.0), {}), ((_H2(), 2, 0.5), {})]
     G["random_layout"] = [((_H(),), {})]
     G["pairwise_spring_layout"] = [((_H(),), {})]
     G["barycenter_spring_layout"] = [((_H(),), {})]
